@@ -32,7 +32,7 @@ func (c18) Assumptions() []string {
 
 func (c18) Phases(env run.Env) []run.Phase {
 	if env.Thorough {
-		return []run.Phase{{Name: "credential-pairs", N: 120000}}
+		return []run.Phase{{Name: "credential-pairs", N: 4000000}}
 	}
 	return []run.Phase{{Name: "credential-pairs", N: 5000}}
 }
